@@ -6,14 +6,78 @@ HOOK_COMMITS = ["7a0cbf6"]
 
 # id -> (engine, category, text, note, technique, design_ref)
 CHECKS = {
+ "C01": ("sim", "exploration",
+   "The real Worker::send_file runs against a simulated socket; proptest generates blksize x windowsize x file size x handshake x fault fates x adversarial ACK scripts; trace predicates S1 (every DATA = its file slice), S2 (no block beyond the final one), S11 (a transfer that ends acknowledged has sent its short final block) and the model client's reassembled copy (identical or incomplete) decide. A wire part repeats the slice check against the real tftpd with partial/duplicate ACKs. Sampling, not exhaustive.",
+   "Trusts the trace predicates (harness/src/pred.rs), the model client, and the virtual-clock hook; lying ACKs only without block-number wrap-around.",
+   "proptest scenario generation over a simulated socket + model client, trace-predicate oracle; wire spot checks", "4/C01"),
+ "C02": ("sim", "exploration",
+   "The real Worker::receive_file under the simulated socket: arrivals generated from a conformant sender's datagrams by drop/dup/swap/late fates plus scripted duplicates, out-of-order blocks and strays; at every emitted ACK the file is read back from disk (R1 ACK never ahead, R2 file = in-order concatenation containing all acknowledged blocks, R5 final file). A wire part uploads to the real tftpd and reads the stored file at every received ACK.",
+   "Trusts pred.rs and the rule that injected DATA carries the true payload of its absolute block.",
+   "proptest history generation over a simulated socket, on-disk oracle at every ACK; wire spot checks", "4/C02"),
+ "C03": ("wire", "exploration",
+   "Bounded-exhaustive enumeration of filenames (all joins of <=3 (thorough 4) segments from a traversal alphabet x 4 separators x 6 leading-separator kinds) plus proptest random names, sent as RRQ and WRQ to the real tftpd over a sandbox tree with unique contents in 8 configurations; oracle = replies carry only send-directory file contents, recursive snapshot changes only inside the receive directory and only after an accepted write.",
+   "No symlinks in the tree; Linux path semantics; snapshot attribution is batch-wise (changes allowed in the receive dir once any WRQ of the batch was accepted).",
+   "bounded-exhaustive name enumeration + proptest, filesystem-snapshot oracle against the real binary", "4/C03"),
+ "C04": ("sim", "fault_enumeration",
+   "Every placement of 1 and 2 faults (thorough 3) of 4 kinds over all datagrams of both directions for windowsize 1..4 (5), 6 lengths x 3 last-block shapes, 2 peer styles, both roles, plus proptest random fault lists (<=5 faults); oracle = model peer holds the complete file and the worker ended successfully (RFC 1350 last-ACK exception only).",
+   "Precondition by construction (<=5 faults, peer timer = worker timeout). Exhaustive only inside the stated box.",
+   "exhaustive fault-placement enumeration + proptest, completion oracle with a conformant model peer", "4/C04"),
+ "C05": ("wire", "exploration",
+   "Generated datagram sequences (proptest: option boundary values up to and beyond 2^64, structure-aware mutations, raw bytes, oversized datagrams, 4 sources) and a deterministic option x value sweep against a fresh real tftpd per case in 4 modes; oracle = liveness probe (canonical RRQ served correctly) and process still running; isolated re-run before reporting.",
+   "At most 29 datagrams per fresh server; volume-based exhaustion not explored.",
+   "proptest sequence generation + mutation against the real binary, liveness-probe oracle", "4/C05"),
+ "C06": ("wire", "exploration",
+   "Model-based testing: proptest generates a configuration and a history of <=11 requests; a reference decision table and model filesystem predict each reply class and the exact tree; the real send/receive trees are compared byte-for-byte with the model after every step.",
+   "Targets live in existing directories; aborted uploads follow C13's clean/keep rule in the model.",
+   "model-based stateful proptest (decision table + model filesystem) against the real binary", "4/C06"),
+ "C07": ("sim", "fault_enumeration",
+   "Exhaustive over every receive position x cause (silence, ERROR 0..7, long ERROR, every ACK pattern / duplicate / out-of-order datagram) for windowsize 1..4 (8), lengths around one and two windows, both roles, with/without handshake; proptest scripts beyond; trace predicates S2/S6/S7/S8/R4; a wire part checks real timeouts (default 5 s, bounded number of retransmissions, abandoned upload cleaned up, long ERROR ends the transfer).",
+   "Virtual clock in the sim part; the wire part uses real time with tolerances and an isolated re-run.",
+   "exhaustive position x cause enumeration + proptest scripts, trace predicates; wire timing part", "4/C07"),
+ "C08": ("sim", "exploration",
+   "proptest scripts of duplicate/stale/partial ACKs, forced timeouts and deliveries at 0, 1/4, 1/2, 999/1000 and 1 timeout of virtual time for windowsize 1..16, 65534, 65535 and random; long transfers with stale numbers from behind the wrap; receiver role with duplicates; predicates S3/S4/S5/S10/R3, no panic, and completion after harmless ACKs.",
+   "Stale ACK numbers never alias an outstanding block; handshake is left undisturbed.",
+   "proptest adversarial-script generation with a virtual clock, trace-predicate oracle", "4/C08"),
+ "C09": ("wire", "exploration",
+   "proptest generates subsets/orders/cases of the four options with boundary and unhonourable values (also > 2^16 and > 2^32 non-multiples), unknown options interleaved, RRQ/WRQ, both port modes; OACK truthfulness rules and then the measured transfer (exact block length, exact burst size incl. windows larger than the socket buffer, ACK after exactly W blocks, retransmission not before the acknowledged timeout, content).",
+   "Timeouts > 255 not generated; timing tolerance 130 ms; big-window cases need SO_RCVBUFFORCE (skipped otherwise).",
+   "proptest option-grammar generation against the real binary, reference negotiation rules + measured transfer", "4/C09"),
  "C10": ("pure", "exploration",
-   "Generated-input search over byte strings against a reference decoder: bounded-exhaustive enumeration (all strings <=6 (quick) / <=7 (thorough) over a 12-byte structural alphabet, all 65536 opcode prefixes x 20 tails, all short token sequences of the option grammar) plus seeded proptest generation of mutated valid packets and raw datagrams up to 64 KiB; oracle = no panic, rejection wherever a rule named by the property applies, re-encode stability of everything accepted. Evidence of absence only within the enumerated boxes.",
+   "Generated-input search over byte strings against a reference decoder: bounded-exhaustive enumeration (all strings <=6 (quick) / <=7 (thorough) over a 12-byte structural alphabet, all 65536 opcode prefixes x 20 tails, all short token sequences of the option grammar) plus seeded proptest generation of mutated valid packets and raw datagrams up to 64 KiB; oracle = no panic, rejection wherever a rule named by the property applies, re-encode stability of everything accepted.",
    "Trusts the independent reference decoder in harness/src/refcodec.rs; ERROR messages without NUL are exempt (pinned baseline test requires acceptance).",
    "bounded-exhaustive enumeration + proptest (mutation-based) + libFuzzer target, reference-decoder oracle", "4/C10"),
  "C11": ("pure", "exploration",
    "proptest generation of Packet values from a grammar compared byte-for-byte with an independent RFC encoder and decoded by both decoders; exhaustive sweep of all 65536 u16 values through Opcode/ErrorCode conversions and DATA/ACK block numbers.",
    "Trusts harness/src/refcodec.rs as the statement of the RFC layout.",
    "proptest grammar-based generation, differential against independent codec, exhaustive u16 sweep", "4/C11"),
+ "C12": ("wire", "exploration",
+   "K model clients against one real tftpd with a generated single-threaded schedule (= arrival order at the listener) and injected foreign/stray datagrams; exhaustive interleavings for K=2 short transfers in both port modes, proptest for K<=16; oracle = per-client content, source ports, ERROR replies to ownerless endpoints, no leak.",
+   "Interleaving granularity = one request or window per step; server-internal bind/connect gap not schedulable.",
+   "exhaustive 2-client interleavings + proptest schedules against the real binary", "4/C12"),
+ "C13": ("sim", "fault_enumeration",
+   "Every abort point (silence / peer ERROR at every receive position; write error via RLIMIT_FSIZE at every block edge) x clean/keep x windowsize 1..4 (6) in the simulator plus proptest; a wire part generates duplicate/retransmitted WRQ histories against the real tftpd and waits out the stale workers. Known finding F6 (signature stale-upload-worker-cleanup) is tolerated for exactly that outcome and printed as KNOWN-FINDING.",
+   "Write errors only as EFBIG; the no-overwrite create/exists race is judged whichever way it falls.",
+   "exhaustive abort-point enumeration + proptest, directory post-condition oracle; wire histories", "4/C13"),
+ "C14": ("wire", "exploration",
+   "The real tftpc against the real tftpd: proptest over direction x port mode x IPv4/IPv6 x path style x blksize x windowsize x timeout x size families x refusal kinds, plus two >65535-block transfers; oracle = byte-identical files at the documented locations, refusal behaviour, termination within a watchdog.",
+   "One burst kept below 100 KB (loopback drops); absolute local paths not generated.",
+   "proptest configuration generation driving both real binaries, file-equality oracle", "4/C14"),
+ "C15": ("sim", "exploration",
+   "65534..65538- and 131071..131073-block transfers through the real worker in both roles with windows ending before/at/after the wrap and faults placed there (proptest) plus every single drop/dup/late fault on every datagram around block 65536 for windowsize {1,2,4,5} (exhaustive); predicates with absolute indices, content encodes the absolute offset. Wire transfers beyond 65535 blocks run in C14.",
+   "blksize 8 only for the long transfers.",
+   "proptest + exhaustive single-fault enumeration at the wrap over a simulated socket, absolute-index trace predicates", "4/C15"),
+ "C16": ("sim", "exploration",
+   "repeat = N+1 for N in {0,1,2,3,254} x roles x windows x sizes in the simulator (S9 multiplicity, content, termination), the repo's own sender against its own receiver over an in-memory link with N on either side, and a wire grid --duplicate-packets {0,1,2,3,254,255,256,-1,1000,x} x port mode x options (initial reply once, DATA/ACK N+1 times, start-up rejection).",
+   "The 1 ms sleep between copies is not judged.",
+   "proptest over the simulated socket and an in-memory worker pair, multiplicity oracle; wire grid", "4/C16"),
+ "C17": ("pure", "exploration",
+   "proptest argument vectors over the full server and client flag sets (valid/invalid values, repeats, unknown flags, dangling flag) compared field by field with a reference parser, plus a metamorphic re-parse of a permutation that keeps each flag's last occurrence; exhaustive ordered selections of <=4 of 16 representative groups.",
+   "-h/--help excluded (exits the process).",
+   "proptest + exhaustive permutations, reference parser and permutation metamorphic relation", "4/C17"),
+ "C18": ("pure", "exploration",
+   "Model-based: operation sequences over tftpd::Window (reader and writer machines) compared after every step with a VecDeque reference + file cursor; exhaustive sequences up to length 5 (6) over 4 ops on a parameter grid, proptest sequences up to 40 ops incl. bulk adds and windows of 255..4096 and 65535.",
+   "fill only on readable files, empty only on writable ones (callers' use).",
+   "exhaustive short sequences + model-based proptest, VecDeque reference model", "4/C18"),
 }
 
 NOT_YET = {}
